@@ -1080,9 +1080,10 @@ class HasManyIdents(GenericHandler):
         subcls = super().using(**kwds)
 
         # add custom default ident
-        # (NOTE: creates instance to run value through _norm_ident())
+        # (NOTE: not by creating an instance -- that would generate salt etc from
+        #        the settings of *cls*, which the new settings may just be replacing)
         if default_ident is not None:
-            subcls.default_ident = cls(ident=default_ident, use_defaults=True).ident
+            subcls.default_ident = subcls._norm_ident(default_ident)
         return subcls
 
     def __init__(self, ident=None, **kwds):
